@@ -51,6 +51,7 @@ type World struct {
 	regexByName map[string]string
 	regexInfos map[string]*RegexInfo
 	localRegex map[string]string // pkgname.Func:var -> literal
+	cg         *CallGraph
 }
 
 type FuncSite struct {
@@ -131,6 +132,24 @@ func loadWorld(repo string) (*World, error) {
 					}
 					for _, sp := range dd.Specs {
 						vs := sp.(*ast.ValueSpec)
+						// package-level initialisers containing function literals (cobra commands)
+						for i, nm := range vs.Names {
+							if i >= len(vs.Values) {
+								continue
+							}
+							var body []ast.Stmt
+							ast.Inspect(vs.Values[i], func(n ast.Node) bool {
+								if fl, ok := n.(*ast.FuncLit); ok {
+									body = append(body, fl.Body)
+									return false
+								}
+								return true
+							})
+							if len(body) > 0 {
+								fd := &ast.FuncDecl{Name: nm, Type: &ast.FuncType{Params: &ast.FieldList{}}, Body: &ast.BlockStmt{Lbrace: vs.Pos(), List: body, Rbrace: vs.End()}}
+								w.funcs[p.PkgPath+"::var:"+nm.Name] = &FuncSite{pkg: p, decl: fd, name: "var:" + nm.Name}
+							}
+						}
 						for i, nm := range vs.Names {
 							if i < len(vs.Values) {
 								if se, ok := vs.Values[i].(*ast.SelectorExpr); ok {
